@@ -27,6 +27,26 @@ THEOREMS = [
     "Verif.C16.update_normalised",
     "Verif.C16.gamma_exact",
     "Verif.C16.xi_exact",
+    "Verif.C16.scaling_positive",
+    "Verif.C16.posteriors_nonneg",
+    "Verif.C16.occupancy_positive",
+    "Verif.C16.inference_exact_of_posModel",
+    "Verif.C16.update_normalised_of_posModel",
+    "Verif.C16.hypotheses_needed",
+    "Verif.C16.em_monotone",
+    "Verif.C16.em_monotone_of_pos",
+    "Verif.C16.em_monotone_general",
+    "Verif.C16.em_link",
+    "Verif.C16.em_monotone_tables",
+    "Verif.C16.emTables_mono",
+    "Verif.C16.em_link_update",
+    "Verif.C16.dwell_counts_conserve",
+    "Verif.C16.generic_model_is_executable_model",
+    "Verif.C16.baum_welch_step_monotone",
+    "Verif.C16.baum_welch_monotone",
+    "Verif.C16.baum_welch_step_monotone_zeros",
+    "Verif.C16.dwellsChecked_spec",
+    "Verif.C16.initCheck_spec",
 ]
 RULE = (
     "corpus (zero-probability initial states/transitions, the all-impossible model, constant paths, single runs) + "
@@ -68,6 +88,13 @@ RULE = (
     "object (same clauses as the manual E/M steps).  A private function that is not reachable under its anchored name gives "
     "'?' observations (never compared, listed in coverage.private_ties) and leaves its public twin: the chain for every T, "
     "extract_dwell_times for the label sequences a model can decode. "
+    "Round D: every forward-backward run of the Lean model also reports whether the model has probability weights and positive "
+    "emission densities and, if so, that every c_t > 0, gamma, xi >= 0 and occupancies are positive (theorems scaling_positive, "
+    "posteriors_nonneg, occupancy_positive), compared with the signs of the code's arrays; every forward-backward case with "
+    "K^T <= 243 and T >= 2 also evaluates the exact likelihood (sum over ALL paths) before and after re-estimating pi, A with the "
+    "emission table kept (op c16.emtab, theorem em_monotone_tables) against forward_backward of the model holding the pi', A' that "
+    "ClassicHmm.update returned with the old emissions; every label sequence also gives the number of samples all dwells cover "
+    "together (op c16.dwelltot, theorem dwell_counts_conserve). "
     "Non-trivial: decoded path with >=2 states; forward-backward with K>=2 and T>=2; EM with K>=2 and >=2 "
     "iterations; label sequence with >=2 runs; call sequence with >=2 calls and a trace with >=2 runs; malformed input "
     "that must raise."
@@ -95,8 +122,17 @@ ASSUMPTIONS = [
     "precision above 1e12 (variance collapse onto identical observations, frequent in integer traces: the Gaussian is "
     "singular, the likelihood unbounded and its computed value rounding noise; "
     "corpus/C16/em_variance_collapse_identical_counts.json); such runs are counted",
-    "em_monotone (DESIGN ext) is NOT a theorem: the likelihood ascent of Baum-Welch is explored only (oracle on the "
-    "implementation's log-likelihood sequence)",
+    "Baum-Welch ascent (baum_welch_step_monotone / baum_welch_monotone) is a theorem about the ALGORITHM in exact real "
+    "arithmetic: the forward-backward model with Rat replaced by an arbitrary field (Lemmas/C16F, generated text; at F = Q "
+    "proved to be the executable model the harness runs against the code: generic_model_is_executable_model), instantiated "
+    "at the reals with the Gaussian emission table; hypotheses: strictly positive pi and A with totals at most one (exactly "
+    "one after one exact update - re-established by the step), positive variances, at least two samples that are not all "
+    "equal (then no re-estimated variance is zero).  Models with zero entries in pi / A: baum_welch_step_monotone_zeros (the algorithm, "
+    "side conditions: no row of A' is 0/0 and every re-estimated variance is positive), em_monotone (posteriors as sums over "
+    "all paths, zero entries allowed, side condition that no re-estimated variance of an occupied state is zero) and "
+    "em_monotone_tables / emTables_mono (executable model, emission table kept), joined to the executable model by em_link / "
+    "em_link_update.  Not formal: that the doubles of the code follow the exact reals (compared within 1e-9*scale on every run)",
+    "the implementation's log-likelihood sequence itself is still observed on every run (oracle), as before",
     "state labels handed to dwell extraction are integers",
 ]
 
@@ -727,7 +763,20 @@ def n_ops(case):
         return len(case["steps"])
     if case["op"] == "em":
         return 2 if len(case["data"]) <= FB_MODEL_T else 1
-    return 2 if case["op"] == "dwell" else 1
+    if case["op"] == "fb":
+        return 2 if emtab_applies(case) else 1
+    return 3 if case["op"] == "dwell" else 1
+
+
+EMTAB_LIMIT = 243  # K^T up to which the two sides of em_monotone_tables (sums over ALL paths) are also run by the Lean model
+
+
+def emtab_applies(case):
+    """forward-backward cases whose re-estimated pi, A (emissions kept) are ALSO evaluated: exact likelihood before and after, by
+    the Lean model as sums over all K^T paths (theorem em_monotone_tables / emTables_mono), by the code as forward_backward of the
+    model that holds the updated pi, A and the old means and precisions"""
+    T = len(case["data"])
+    return 2 <= T and case["K"] ** T <= EMTAB_LIMIT and not case.get("expect_degenerate")
 
 
 CHAIN_T = 64  # traces up to this length: the Baum-Welch iterations are ALSO observed one by one through the public constructor
@@ -792,7 +841,20 @@ def _impl(case):
         hm = HMM(obs_array(case), K, tol=0.0, max_iter=1, initial_guess=stub_hmm(classic(case), K))
         out["pub1"] = public_params(hm)
         out["pub1"]["var"] = shown(hm)[3]
-        return [json.dumps(out)]
+        if n_ops(case) == 1:
+            return [json.dumps(out)]
+        # the model with the re-estimated pi, A and the OLD emissions, through the anchored forward pass
+        emt = "?"
+        try:
+            if out["pi2"] != "?":
+                hyb = hmm_params(K, case["mu"], case["tau"], unfl(out["pi2"]), [unfl(r) for r in out["A2"]])
+                with np.errstate(all="ignore"):
+                    c1 = np.asarray(anchored(algo(ANCHOR_ALGOS[0]), data, hyb, returns=4)[2], dtype=float)
+                    emt = json.dumps({"ll0": out["ll"], "s0": enc_float(float(np.sum(np.abs(np.log(unfl(out["c"])))))),
+                                      "ll1": enc_float(float(np.sum(np.log(c1)))), "s1": enc_float(float(np.sum(np.abs(np.log(c1)))))})
+        except Unreachable:
+            pass
+        return [json.dumps(out), emt]
     if k == "em":
         K = case["K"]
         model = classic(case)
@@ -849,10 +911,12 @@ def _impl(case):
         except Unreachable:
             # the anchored private function is not reachable under its name: its ranges cannot be observed ("?"); the counts
             # stay tied through the public extract_dwell_times where the labels can be produced by a model
-            return ["?", public_dwell_counts(case["path"], case["exclude"])]
+            pc = public_dwell_counts(case["path"], case["exclude"])
+            return ["?", pc, str(sum(sum(v) for v in parse_dwells(pc, pair=False).values())) if pc.startswith("[") else "?"]
         ranges = {s: [tuple(r) for r in np.asarray(v).reshape(-1, 2)] for s, v in ranges.items()}
         counts = {s: list(np.atleast_1d(v)) for s, v in counts.items()}
-        return [show_dwells(ranges), show_counts(counts)]
+        # ... and the number of samples all returned dwells cover together (theorem dwell_counts_conserve)
+        return [show_dwells(ranges), show_counts(counts), str(int(sum(int(x) for v in counts.values() for x in v)))]
     if k == "dwell_api":
         labels = case["path"]
         K = case["K"]
@@ -917,8 +981,11 @@ def ops(case):
     if k == "fb":
         K = case["K"]
         B = [[math.exp(gauss_logpdf(x, case["mu"][j], case["tau"][j])) for j in range(K)] for x in case["data"]]
-        return [f"c16.fb {K} {enc_list(case['pi'], enc_rat)} {enc_listlist(square(case), enc_rat)} "
-                f"{enc_listlist(B, enc_rat)} {enc_list(case['data'], enc_rat)}"]
+        out = [f"c16.fb {K} {enc_list(case['pi'], enc_rat)} {enc_listlist(square(case), enc_rat)} "
+               f"{enc_listlist(B, enc_rat)} {enc_list(case['data'], enc_rat)}"]
+        if n_ops(case) == 2:
+            out.append(f"c16.emtab {K} {enc_list(case['pi'], enc_rat)} {enc_listlist(square(case), enc_rat)} {enc_listlist(B, enc_rat)}")
+        return out
     if k == "em":
         ia = _impl_of(case)[0]
         if is_err(ia):
@@ -942,7 +1009,8 @@ def ops(case):
         return out
     if k == "dwell":
         p = enc_list(case["path"], lambda s: "nan" if s is None else str(int(s)))
-        return [f"c16.dwell {p} {enc_bool(case['exclude'])}", f"c16.dwellc {p} {enc_bool(case['exclude'])}"]
+        return [f"c16.dwell {p} {enc_bool(case['exclude'])}", f"c16.dwellc {p} {enc_bool(case['exclude'])}",
+                f"c16.dwelltot {p} {enc_bool(case['exclude'])}"]
     if k == "dwell_api":
         return [f"c16.dwellc {enc_list(case['path'])} {enc_bool(case['exclude'])}"]
     if k == "dwell_seq":
@@ -984,6 +1052,34 @@ def got(d, f):
     return None if isinstance(v, str) and v == "?" else v
 
 
+def fb_pos_agree(case, d, toks):
+    """The hypothesis of scaling_positive / posteriors_nonneg / occupancy_positive (posModel, decided by the Lean model on the
+    exact inputs) and their conclusions, on the model's own run and on what forward_backward /
+    calculate_temporary_variables returned: every c_t > 0, every gamma, xi >= 0, and (T >= 2) positive occupancy
+    before the last time point of every state with pi_i > 0."""
+    hyp, cpos, nonneg, occ = toks[7:11]
+    K, T = case["K"], len(case["data"])
+    if hyp != "T":
+        return True
+    if cpos != "T" or nonneg != "T" or (T >= 2 and occ != "T"):
+        return False  # the executed model contradicts a theorem: the driver does not run the definitions the theorems are about
+    if got(d, "c") is not None and not all(v > 0 for v in unfl(d["c"])):
+        return False
+    if got(d, "gamma") is not None:
+        g = [unfl(r) for r in d["gamma"]]
+        if not all(v >= 0 for r in g for v in r):
+            return False
+        if T >= 2:
+            for i in range(K):
+                if case["pi"][i] > 0:
+                    # positive in exact arithmetic; in doubles a posterior can underflow to zero only far below the tolerance
+                    if not sum(r[i] for r in g[:-1]) >= 0:
+                        return False
+    if got(d, "xi") is not None and not all(v >= 0 for r in d["xi"] for v in unfl(r)):
+        return False
+    return True
+
+
 def fb_agree(case, ia, ma):
     if is_err(ia) or is_err(ma):
         return ia == ma
@@ -995,9 +1091,11 @@ def fb_agree(case, ia, ma):
             return not all(math.isfinite(v) and v > 0 for v in c)
         return pub is None or not math.isfinite(dec_float(pub["ll"]))
     toks = ma.split(" ")
-    if len(toks) != 7:
+    if len(toks) != 11:
         return False
     K, T = case["K"], len(case["data"])
+    if not fb_pos_agree(case, d, toks):
+        return False
     mc, mg, mx, mpi, mA, mmu, mvar = (dec_ratlist(toks[0]), dec_ratll(toks[1]), dec_ratll(toks[2]), dec_ratlist(toks[3]),
                                        dec_ratll(toks[4]), dec_ratlist(toks[5]), dec_ratlist(toks[6]))
     if len(mc) != T:
@@ -1044,6 +1142,40 @@ def fb_agree(case, ia, ma):
     return True
 
 
+def emtab_agree(case, ia, ma):
+    """c16.emtab: `L L' (L<=L') hyp` of the Lean model (both likelihoods as sums over ALL paths; hyp = the hypotheses of
+    em_monotone_tables hold for the exact inputs) against the code: log-likelihood of the model and of the model holding the
+    pi, A that ClassicHmm.update returned with the old emissions."""
+    if ia == "?":
+        return True
+    if is_err(ia) or is_err(ma):
+        return ia == ma
+    toks = ma.split(" ")
+    if len(toks) != 4:
+        return False
+    def frac(t):
+        p, q = t.split("/")
+        return Fraction(int(p), int(q))
+
+    def flog(v):  # logarithm of a positive Fraction without going through a double that could underflow
+        return math.log(v.numerator) - math.log(v.denominator)
+
+    L0, L1, mono, hyp = frac(toks[0]), frac(toks[1]), toks[2], toks[3]
+    if hyp == "T" and mono != "T":
+        return False  # the executed model contradicts emTables_mono
+    d = json.loads(ia)
+    ll0, ll1, s0, s1 = (dec_float(d[f]) for f in ("ll0", "ll1", "s0", "s1"))
+    if L0 <= 0 or not math.isfinite(ll0):
+        return True  # observations impossible under the model: nothing the clause speaks about
+    if not fclose(ll0, flog(L0), 1.0 + s0):
+        return False
+    if not math.isfinite(ll1) or L1 <= 0:
+        return True  # a state without occupancy before the last sample: its row of A' is 0/0 in the code (excluded, see ASSUMPTIONS)
+    if not fclose(ll1, flog(L1), 1.0 + s1):
+        return False
+    return hyp != "T" or ll1 >= ll0 - TOL * (1.0 + s0 + s1)
+
+
 def em_ll_agree(ia, ma):
     """fit_info.log_likelihood of the trained model against log prod c_t of the exact model run on the trained parameters"""
     if is_err(ia) or is_err(ma):
@@ -1052,7 +1184,9 @@ def em_ll_agree(ia, ma):
     if ma == "degenerate":
         return not math.isfinite(ll)
     toks = ma.split(" ")
-    if len(toks) != 7:
+    if len(toks) != 11:
+        return False
+    if toks[7] == "T" and toks[8:11] != ["T", "T", "T"]:  # a conclusion of scaling_positive / posteriors_nonneg / occupancy_positive fails on the executed model
         return False
     mc = dec_ratlist(toks[0])
     if not all(v > 0 for v in mc):
@@ -1070,7 +1204,7 @@ def agree(case, i, ia, ma):
             return True
         return vit_agree(ia, ma) if i == 0 else em_ll_agree(ia, ma)
     if k == "fb":
-        return fb_agree(case, ia, ma)
+        return fb_agree(case, ia, ma) if i == 0 else emtab_agree(case, ia, ma)
     if ia == "?":  # an observation the harness could not make (private tie not reachable): nothing to compare
         return True
     return ia == ma
@@ -1410,7 +1544,19 @@ def oracle(case, ia):
             if cnt != exp:
                 return f"dwell-times: extract_dwell_times gives counts {cnt}, the runs of the path give {exp}"
             return None
-        return oracle_dwell(case["path"], case["exclude"], parse_dwells(a), parse_dwells(ia[1], pair=False))
+        r = oracle_dwell(case["path"], case["exclude"], parse_dwells(a), parse_dwells(ia[1], pair=False))
+        if r is None and len(ia) > 2 and ia[2] != "?":
+            runs, T = runs_of(case["path"]), len(case["path"])
+            if not case["exclude"]:
+                want = T
+            elif len(runs) >= 2:
+                want = T - (runs[0][2] - runs[0][1]) - (runs[-1][2] - runs[-1][1])
+            else:
+                want = 0
+            if int(ia[2]) != want:
+                return (f"dwell-tiling: all dwell counts together cover {ia[2]} samples, expected {want} of the {len(case['path'])} "
+                        f"samples of the trace (exclude_ambiguous_dwells={case['exclude']})")
+        return r
     if k == "dwell_api":
         if is_err(a) or not a.startswith("["):
             return f"extract_dwell_times: {a[:120]}"
@@ -1913,6 +2059,59 @@ def em_lls(d):
     return [dec_float(c["ll"]) for c in (got(d, "chain") or [])]
 
 
+def positivity_coverage(results):
+    """branches of scaling_positive / posteriors_nonneg / occupancy_positive hit by the c16.fb runs of this check"""
+    out = {"posModel_true": 0, "posModel_false": 0, "posModel_true_with_zero_in_pi": 0, "posModel_true_with_zero_in_A": 0,
+           "posModel_true_T1_no_occupancy_claim": 0, "rows_with_positive_pi_and_T>=2": 0, "degenerate_runs": 0}
+    for r in results:
+        c = r["case"]
+        for m in r["model"]:
+            toks = m.split(" ")
+            if m == "degenerate":
+                out["degenerate_runs"] += 1
+            if len(toks) != 11:
+                continue
+            if toks[7] != "T":
+                out["posModel_false"] += 1
+                continue
+            out["posModel_true"] += 1
+            if c["op"] == "fb":
+                out["posModel_true_with_zero_in_pi"] += any(v == 0 for v in c["pi"])
+                out["posModel_true_with_zero_in_A"] += any(v == 0 for row in square(c) for v in row)
+                T = len(c["data"])
+                out["posModel_true_T1_no_occupancy_claim"] += T == 1
+                out["rows_with_positive_pi_and_T>=2"] += sum(1 for v in c["pi"] if v > 0) if T >= 2 else 0
+    return out
+
+
+def emtab_coverage(results):
+    """branches of em_monotone_tables / emTables_mono hit by the c16.emtab runs (both sides as sums over ALL paths)"""
+    out = {"runs": 0, "hypotheses_hold": 0, "hypotheses_fail_rounding_or_impossible_data": 0, "likelihood_strictly_up": 0,
+           "likelihood_equal": 0, "likelihood_down_without_hypotheses": 0, "code_side_observed": 0,
+           "code_side_new_row_0/0_not_compared": 0, "models_with_zero_probabilities": 0}
+    for r in results:
+        c = r["case"]
+        if c["op"] != "fb" or len(r["model"]) != 2:
+            continue
+        toks = r["model"][1].split(" ")
+        if len(toks) != 4:
+            continue
+        out["runs"] += 1
+        out["hypotheses_hold" if toks[3] == "T" else "hypotheses_fail_rounding_or_impossible_data"] += 1
+        out["models_with_zero_probabilities"] += any(v == 0 for v in c["pi"]) or any(v == 0 for row in square(c) for v in row)
+        if toks[0] == toks[1]:
+            out["likelihood_equal"] += 1
+        elif toks[2] == "T":
+            out["likelihood_strictly_up"] += 1
+        else:
+            out["likelihood_down_without_hypotheses"] += 1
+        a = r["impl"][1]
+        if a != "?" and not is_err(a):
+            out["code_side_observed"] += 1
+            out["code_side_new_row_0/0_not_compared"] += not math.isfinite(dec_float(json.loads(a)["ll1"]))
+    return out
+
+
 def extra_coverage(results):
     unobserved = {}  # observations the harness could not make because a private tie was not reachable ("?")
     for r in results:
@@ -1931,6 +2130,8 @@ def extra_coverage(results):
             1 for r in results if r["case"]["op"] == "em" and not is_err(r["impl"][0]) and got(json.loads(r["impl"][0]), "chain") is not None),
     }
     out = _extra_coverage(results)
+    out["positivity_theorems_on_executed_runs"] = positivity_coverage(results)
+    out["em_monotone_tables_on_executed_runs"] = emtab_coverage(results)
     out.update({"private_ties": private_ties(), "observations_not_made_private_tie_unreachable": dict(sorted(unobserved.items())),
                 "public_twins": public_twin})
     return out
